@@ -27,6 +27,12 @@ pub struct Scenario {
     /// the `print` argument of learn (progress output every n-th epoch)
     #[serde(default)]
     pub print: Option<i32>,
+    /// `k >= 2`: k networks of this configuration are built one after the other and then
+    /// trained / evaluated as the tasks of one parallel loop (a hyper-parameter sweep inside
+    /// one pool); a worker that waits inside one network's `learn` may run another
+    /// network's whole `learn` nested in that wait
+    #[serde(default)]
+    pub sweep: usize,
 }
 
 impl Scenario {
@@ -59,6 +65,10 @@ pub struct Obs {
     pub validate: Option<(u32, u32)>,
     pub predictions: Vec<Vec<u32>>,
     pub flags_after: Vec<bool>,
+    /// sweep only: this network's task panicked (class of the message)
+    pub panic: Option<String>,
+    /// sweep only: the observations of networks 1.. (this one is network 0)
+    pub siblings: Vec<Obs>,
 }
 
 fn first_diff_vec(name: &str, a: &[u32], b: &[u32]) -> Option<String> {
@@ -110,6 +120,12 @@ impl Obs {
             eat(b as u64);
         }
         self.flags_after.iter().for_each(|f| eat(*f as u64));
+        if let Some(p) = &self.panic {
+            eat(crate::rng::hash_str(p));
+        }
+        for o in &self.siblings {
+            eat(o.digest());
+        }
         h
     }
 
@@ -152,6 +168,17 @@ impl Obs {
         if self.flags_after != other.flags_after {
             return Some(("training_flags", "training flags after the scenario differ".into()));
         }
+        if self.panic != other.panic {
+            return Some(("panic", format!("panic {:?} vs {:?}", self.panic, other.panic)));
+        }
+        if self.siblings.len() != other.siblings.len() {
+            return Some(("sweep", "number of networks in the sweep differs".into()));
+        }
+        for (i, (a, b)) in self.siblings.iter().zip(other.siblings.iter()).enumerate() {
+            if let Some((f, d)) = a.diff(b) {
+                return Some((f, format!("network {} of the sweep: {}", i + 1, d)));
+            }
+        }
         None
     }
 }
@@ -162,8 +189,41 @@ pub fn params_bits(net: &network::Network) -> Vec<Vec<u32>> {
 
 /// build -> learn -> validate -> predict_batch, one `ctx.op()` before each API call.
 pub fn execute_full(sc: &Scenario, ctx: &mut Ctx) -> Obs {
+    if sc.sweep >= 2 {
+        return execute_sweep(sc, ctx);
+    }
     ctx.op();
-    let mut net = sc.build();
+    let net = sc.build();
+    execute_built(sc, net, Some(ctx))
+}
+
+/// A sweep: the networks are built first, in a fixed order (building reads the clock), and
+/// then each one goes through learn -> validate -> predict_batch as one task of a parallel
+/// loop over the networks. A panic of one task is that network's observation.
+fn execute_sweep(sc: &Scenario, ctx: &mut Ctx) -> Obs {
+    use rayon::prelude::*;
+    ctx.op();
+    let nets: Vec<network::Network> = (0..sc.sweep).map(|_| sc.build()).collect();
+    ctx.op();
+    let all: Vec<Obs> = nets
+        .into_par_iter()
+        .map(|net| match std::panic::catch_unwind(std::panic::AssertUnwindSafe(|| execute_built(sc, net, None))) {
+            Ok(o) => o,
+            Err(_) => Obs { panic: Some(crate::exec::panic_class(&crate::exec::take_panic())), ..Obs::default() },
+        })
+        .collect();
+    let mut it = all.into_iter();
+    let mut first = it.next().unwrap_or_default();
+    first.siblings = it.collect();
+    first
+}
+
+fn execute_built(sc: &Scenario, mut net: network::Network, mut ctx: Option<&mut Ctx>) -> Obs {
+    let mut op = || {
+        if let Some(c) = ctx.as_mut() {
+            c.op();
+        }
+    };
     let mut obs = Obs::default();
     obs.initial = params_bits(&net);
 
@@ -178,7 +238,7 @@ pub fn execute_full(sc: &Scenario, ctx: &mut Ctx) -> Obs {
     let vxr: Vec<&tensor::Tensor> = vx.iter().collect();
     let vyr: Vec<&tensor::Tensor> = vy.iter().collect();
 
-    ctx.op();
+    op();
     let validation = if sc.val.is_some() { Some((&vxr, &vyr, sc.early_tol)) } else { None };
     let (tl, vl, va) = net.learn(&xr, &yr, validation, sc.batch, sc.epochs, sc.print);
     obs.train_loss = bits(&tl);
@@ -191,7 +251,7 @@ pub fn execute_full(sc: &Scenario, ctx: &mut Ctx) -> Obs {
         let ey = targets(&e.y);
         let exr: Vec<&tensor::Tensor> = ex.iter().collect();
         let eyr: Vec<&tensor::Tensor> = ey.iter().collect();
-        ctx.op();
+        op();
         let (l, a) = net.validate(&exr, &eyr, sc.acc_tol);
         obs.validate = Some((l.to_bits(), a.to_bits()));
     }
@@ -199,7 +259,7 @@ pub fn execute_full(sc: &Scenario, ctx: &mut Ctx) -> Obs {
     if !sc.pred.is_empty() {
         let px = tensors(&sc.net, &sc.pred);
         let pxr: Vec<&tensor::Tensor> = px.iter().collect();
-        ctx.op();
+        op();
         let out = net.predict_batch(&pxr);
         obs.predictions = out.iter().map(|t| bits(&flat(t))).collect();
     }
@@ -369,6 +429,16 @@ pub fn shrink_net(net: &NetCfg) -> Vec<NetCfg> {
 /// Smaller variants of a scenario, most aggressive first.
 pub fn shrink_scenario(sc: &Scenario) -> Vec<Scenario> {
     let mut out = Vec::new();
+    if sc.sweep >= 2 {
+        let mut s = sc.clone();
+        s.sweep = 0;
+        out.push(s);
+        if sc.sweep > 2 {
+            let mut s = sc.clone();
+            s.sweep -= 1;
+            out.push(s);
+        }
+    }
     if sc.val.is_some() {
         let mut s = sc.clone();
         s.val = None;
@@ -473,6 +543,7 @@ pub fn scenario_probes(sc: &Scenario, stats: &mut crate::core::Stats) {
     stats.probe("print_some", sc.print.is_some());
     stats.probe("batch_ge_17", sc.batch >= 17 && n >= 17);
     stats.probe("group_ge_256", sc.batch >= 256 && n >= 256);
+    stats.probe("sweep_of_networks_in_one_pool", sc.sweep >= 2);
     stats.probe("width_ge_8192", sc.net.shapes().map(|v| v.iter().any(|s| s.count() >= 8192)).unwrap_or(false));
     stats.probe("output_activation_reset", sc.net.built_last_act.is_some());
     stats.probe("scale_stratum", n >= 100 || sc.epochs >= 8 || sizes.iter().any(|s| *s >= 300));
